@@ -546,6 +546,10 @@ def run(repo, res, tier):
     # the one command-id set holds the command of EVERY symbol that has one, top-level and within-word (ids are looked up in it later)
     FC.fieldcover(repo, res, "dfa::DFA::get_commands", "Inp", "cmd", "call:insert", min_matches=2)
     descrlink(repo, res, ty)
+    # `the description attached to each literal` is embedded as that text only if it goes through the module's string-constant encoder
+    # (a description printed raw between quotes is a different text as soon as it contains a quote, `$` or a backslash): shared with C07
+    from . import c07
+    c07.sink_rule(repo, res, ty)
     tot_s = tot_i = 0
     for mod in RE.EMITTERS:
         base = RE.module_base(repo, mod)
